@@ -289,6 +289,13 @@ func NewWorld(r drv.Rand) *World {
 		w.Policy.Act = drv.Pick(r, []string{"none", "mapped", "chain"})
 		w.tag("actpolicy=" + w.Policy.Act)
 	}
+	// a resource server that is no OAuth client (unknown to GetClientByClientID) but whose key the
+	// storage knows: it authenticates with a private_key_jwt assertion (same key pair as "pkjwt")
+	w.Policy.KeyOnly = map[string]map[string]*jose.JSONWebKey{KeyOnlyRS: st.Clients["pkjwt"].Keys}
+	if r.Chance(1, 3) { // the veto point: the second storage hook refuses too
+		w.Policy.Late = drv.Pick(r, []string{"plain", "oauth"})
+		w.tag("lateveto=" + w.Policy.Late)
+	}
 	storage := st.AsStorageTEWith(w.Policy, fromRequest)
 	// clock skew the clients are registered with
 	if r.Chance(1, 3) {
@@ -416,7 +423,12 @@ func SignAssertion(iss, variant, aud string) string {
 }
 
 // assertionVerifies: ground truth of VerifyJWTAssertion for SignAssertion's output (the oracle bit of the model).
-func (c Cred) assertionVerifies() bool { return c.Sec == "good" && c.ID == "pkjwt" }
+func (c Cred) assertionVerifies() bool {
+	return c.Sec == "good" && (c.ID == "pkjwt" || c.ID == KeyOnlyRS)
+}
+
+// KeyOnlyRS: the id of the key-only resource server of every world.
+const KeyOnlyRS = "rs-keyonly"
 
 func (c Cred) Term() string {
 	switch c.Kind {
@@ -982,7 +994,8 @@ func (w *World) PolicyTerm() string {
 		sess = emit.Some(emit.Str(w.UAUser))
 	}
 	act := map[string]string{"": "ActDefault", "none": "ActNone", "mapped": "ActMapped", "chain": "ActChain"}[w.Policy.Act]
-	return emit.Ctor("TEPolicy", emit.Bool(!w.Policy.NoDefaultType), force, subj, emit.Bool(w.Policy.EmptyScopes), emit.Bool(w.Policy.Verifier), sess, act, emit.Str(w.Policy.NoLogoutFor))
+	return emit.Ctor("TEPolicy", emit.Bool(!w.Policy.NoDefaultType), force, subj, emit.Bool(w.Policy.EmptyScopes), emit.Bool(w.Policy.Verifier), sess, act, emit.Str(w.Policy.NoLogoutFor),
+		map[string]string{"": "LateNone", "plain": "LatePlain", "oauth": "LateOAuth"}[w.Policy.Late])
 }
 
 func (w *World) Observed() string { return emit.List(w.Outs) }
